@@ -143,6 +143,25 @@ def replay_mapping(ev, stats: Stats, out: list):
     if st != want:
         out.append(Violation("MappingState", "Mapping." + last, f"history {hist}: spec {want} code {st}", rep))
         return
+    # a Mapping of the specification is a value: copy() is the identity, and whatever is appended to the copy afterwards
+    # (maps, mirror registrations) leaves the mapping it was taken from as it was.  (slice() is a view that shares its
+    # lists with the original by design - as upstream's did - and is not appended to here.)
+    def fork():
+        cp = mp.copy()
+        if _mapping_state(cp) != want:
+            return "copy differs"
+        for other in (cp,):
+            k = len(other.maps)
+            other.append_map(_stepmap({"ranges": [[0, 1, 2]], "inv": False}))
+            other.append_map(other.maps[k].invert(), k)
+            if k:
+                other.append_map(other.maps[0].invert(), 0)
+        return None if _mapping_state(mp) == want else f"original became {_mapping_state(mp)}"
+    stats.count("mapping_fork")
+    got = _guard(fork)
+    if got != ("ok", None):
+        out.append(Violation("CopyAliased", "Mapping.copy", f"history {hist}: {got}", rep))
+        return
     for p, pair in enumerate(_byindex(ev["q"])):
         for ai, assoc in ((0, -1), (1, 1)):
             exp = pair[ai]
